@@ -258,11 +258,27 @@ def type_of_numel(rng, n):
 def run_fgg(ctx):
     """FGG round trip: domains, factors (dense and patterned, inf), sum_product"""
     n = 120 if ctx.quick else 1000
-    for k in range(n):
+    dtype0 = torch.get_default_dtype()
+    try:
+        for k in range(n):
+            # every fourth grammar is written and read in DOUBLE precision (torch.set_default_dtype(torch.float64), what
+            # bin/sum_product.py -d does), with weights that single precision cannot hold (0.1, 1e39, 1e-50)
+            double = k % 4 == 3
+            torch.set_default_dtype(torch.float64 if double else dtype0)
+            if double:
+                ctx.count('fgg.default-dtype-float64')
+            _run_fgg_one(ctx, k, double)
+    finally:
+        torch.set_default_dtype(dtype0)
+
+
+def _run_fgg_one(ctx, k, double):
+    if True:
         # (every tenth grammar may have an EMPTY domain: factors over it have no entries, but they do have a shape)
         shape = gen.random_shape(ctx.rng, recursive=False, n_nts=(1, 3), rules_per_nt=(1, 2), start_arity=(0, 1),
                                  dom_sizes=(1, 2, 3, 4, 2, 0) if k % 10 == 7 else (1, 2, 3, 4, 2),
-                                 weights=lambda r: r.choice([0.0, 1.0, 2.0, 3.0, math.inf, 0.5]))
+                                 weights=(lambda r: r.choice([0.0, 0.1, 0.3, 1e39, 1e-50, 2.0, math.inf])) if double else
+                                 (lambda r: r.choice([0.0, 1.0, 2.0, 3.0, math.inf, 0.5])))
         fgg, info = gen.build_fgg(shape, ids=ctx.rng.choice(['implicit', 'explicit']),
                                   domain_kind=ctx.rng.choice(['finite', 'range']), dtype=torch.get_default_dtype())
         # make some weights patterned (diagonal) where the shape allows
@@ -294,13 +310,13 @@ def run_fgg(ctx):
             s = json.dumps(j)
         except (TypeError, ValueError) as e:
             ctx.fail('fgg_to_json produced an object json.dumps rejects', dict(shape=shape), repr(e), None, tags=['dumps'])
-            continue
+            return
         try:
             f2 = formats.json_to_fgg(json.loads(s))
         except Exception as e:  # noqa
             ctx.fail(f'json_to_fgg rejects what fgg_to_json wrote: {type(e).__name__}: {str(e)[:100]}', dict(json=json.loads(s)), repr(e), None,
                      tags=['fgg-roundtrip', 'rejected', type(e).__name__])
-            continue
+            return
         bad = []
         if set(f2.domains) != set(fgg.domains) or any(f2.domains[d] != fgg.domains[d] for d in fgg.domains):
             bad.append('domains differ')
@@ -311,6 +327,8 @@ def run_fgg(ctx):
                 a, b = fgg.factors[name].weights.to_dense(), f2.factors[name].weights.to_dense()
                 if a.shape != b.shape or not bool((a == b).all()):
                     bad.append(f'weights of {name} differ')
+                elif b.dtype != torch.get_default_dtype() and b.dtype != torch.bool:
+                    bad.append(f'weights of {name} are read as {b.dtype}, the default dtype is {torch.get_default_dtype()}')
         try:
             z1 = fggs.sum_product(fgg, method='fixed-point').to_dense()
             z2 = fggs.sum_product(f2, method='fixed-point').to_dense()
